@@ -39,6 +39,9 @@ func Concat(y tensor.Tensor, xs []tensor.Tensor, dim int) (gctx *GradContext) {
 }
 
 func Slice(y tensor.Tensor, x tensor.Tensor, index []tensor.Range) (gctx *GradContext) {
+	// the backward rule runs later: keep a private copy of the caller's index
+	index = append([]tensor.Range(nil), index...)
+
 	if anyIsBPDirty(x) {
 		return NewDirtyGradContext()
 	}
@@ -60,6 +63,9 @@ func Slice(y tensor.Tensor, x tensor.Tensor, index []tensor.Range) (gctx *GradCo
 }
 
 func Patch(y tensor.Tensor, x tensor.Tensor, p tensor.Tensor, index []tensor.Range) (gctx *GradContext) {
+	// the backward rules run later: keep a private copy of the caller's index
+	index = append([]tensor.Range(nil), index...)
+
 	if anyIsBPDirty(x, p) {
 		return NewDirtyGradContext()
 	}
